@@ -1087,7 +1087,21 @@ Proof.
 Qed.
 
 Ltac pwc_upd E :=
-  match goal with |- context [upd _ _ ?y] => pose proof (lsum_upd _ (pwc _) _ _ _ y E) as HU end.
+  match goal with |- context [lsum (pwc ?cfg) (upd ?l ?p ?y)] =>
+    pose proof (lsum_upd _ (pwc cfg) _ _ _ y E) as HU;
+    let L1 := fresh "L1" in let L2 := fresh "L2" in
+    let H1 := fresh in let H2 := fresh in
+    remember (lsum (pwc cfg) (upd l p y)) as L1 eqn:H1;
+    remember (lsum (pwc cfg) l) as L2 eqn:H2; clear H1 H2
+  end.
+Ltac cc_upd E :=
+  match goal with |- context [lsum (cc ?cfg) (upd ?l ?p ?y)] =>
+    pose proof (lsum_upd _ (cc cfg) _ _ _ y E) as HC;
+    let L1 := fresh "L1" in let L2 := fresh "L2" in
+    let H1 := fresh in let H2 := fresh in
+    remember (lsum (cc cfg) (upd l p y)) as L1 eqn:H1;
+    remember (lsum (cc cfg) l) as L2 eqn:H2; clear H1 H2
+  end.
 
 (* holds in every state, reachable or not *)
 Lemma mu_decreases : forall cfg s l s',
@@ -1100,9 +1114,7 @@ Proof.
     unfold assign_all in Hst.
     destruct (fold_left (assign_one cfg) (c_msgs cl) (s_pws s, s_wg s, [])) as [[pws wg] refs] eqn:EA.
     inversion Hst; subst s'; clear Hst. apply assign_fold_cost in EA.
-    pose proof (lsum_upd _ (cc cfg) _ _ _ (mkCall (c_g cl) (c_msgs cl) refs CWaiting) E) as HC.
-    unfold cc at 2 3 in HC. simpl in HC. rewrite Eph in HC.
-    unfold mu; simpl. Show. lia.
+    unfold mu; simpl. cc_upd E. unfold cc in HC. simpl in HC. rewrite Eph in HC. lia.
   - (* Timer *)
     destruct (nth_error (s_pws s) p) as [pw|] eqn:E; [|discriminate].
     destruct (existsb (Nat.eqb k) (pw_await pw)) eqn:Ex; [|discriminate].
@@ -1115,7 +1127,7 @@ Proof.
     destruct (pw_alive pw) eqn:Eal; [|discriminate].
     destruct (pw_snd pw) eqn:Es; [discriminate|]. destruct (pw_queue pw) as [|b q0] eqn:Eq; [discriminate|].
     inversion Hst; subst s'; clear Hst. unfold with_pw, mu; simpl. pwc_upd E.
-    unfold pwc at 2 3 in HU. simpl in HU. rewrite Eal, Es, Eq in HU. unfold sc, bc in *. simpl in HU.
+    unfold pwc in HU. simpl in HU. rewrite Eal, Es, Eq in HU. unfold sc, bc in *. simpl in HU.
     destruct (0 <? maxAttempts cfg); simpl in HU; lia.
   - (* SenderExit *)
     destruct (nth_error (s_pws s) p) as [pw|] eqn:E; [|discriminate].
@@ -1123,12 +1135,12 @@ Proof.
     destruct (pw_snd pw) eqn:Es; [discriminate|]. destruct (pw_queue pw) as [|b q0] eqn:Eq; [|discriminate].
     destruct (pw_open pw) eqn:Eo; [discriminate|].
     inversion Hst; subst s'; clear Hst. unfold with_pw_done, mu; simpl. pwc_upd E.
-    unfold pwc at 2 3 in HU. simpl in HU. rewrite Eal, Es, Eq in HU. simpl in HU. lia.
+    unfold pwc in HU. simpl in HU. rewrite Eal, Es, Eq in HU. simpl in HU. lia.
   - (* Attempt *)
     destruct (nth_error (s_pws s) p) as [pw|] eqn:E; [|discriminate].
     destruct (pw_snd pw) as [[b n [| |e]]|] eqn:Es; try discriminate.
     inversion Hst; subst s'; clear Hst. unfold mu; simpl. pwc_upd E.
-    unfold pwc at 2 3 in HU. simpl in HU. rewrite Es in HU. unfold sc in HU. simpl in HU.
+    unfold pwc in HU. simpl in HU. rewrite Es in HU. unfold sc in HU. simpl in HU.
     unfold after_attempt in HU. destruct (r_seen r) as [e|]; simpl in HU; [|lia].
     destruct (retriable cfg e); simpl in HU; [|lia].
     destruct (S n <? maxAttempts cfg) eqn:El; simpl in HU; [|lia].
@@ -1137,19 +1149,18 @@ Proof.
     destruct (nth_error (s_pws s) p) as [pw|] eqn:E; [|discriminate].
     destruct (pw_snd pw) as [[b n [| |e]]|] eqn:Es; try discriminate.
     inversion Hst; subst s'; clear Hst. unfold with_pw, mu; simpl. pwc_upd E.
-    unfold pwc at 2 3 in HU. simpl in HU. rewrite Es in HU. unfold sc in HU. simpl in HU. lia.
+    unfold pwc in HU. simpl in HU. rewrite Es in HU. unfold sc in HU. simpl in HU. lia.
   - (* Finish *)
     destruct (nth_error (s_pws s) p) as [pw|] eqn:E; [|discriminate].
     destruct (pw_snd pw) as [[b n [| |e]]|] eqn:Es; try discriminate.
     inversion Hst; subst s'; clear Hst. unfold mu; simpl. pwc_upd E.
-    unfold pwc at 2 3 in HU. simpl in HU. rewrite Es in HU. unfold sc in HU. simpl in HU. lia.
+    unfold pwc in HU. simpl in HU. rewrite Es in HU. unfold sc in HU. simpl in HU. lia.
   - (* Return *)
     destruct (nth_error (s_calls s) c) as [cl|] eqn:E; [|discriminate].
     destruct (c_ph cl) eqn:Eph; try discriminate.
     assert (HR : forall r, mu cfg (ret_call s c cl r) < mu cfg s).
     { intros r. unfold mu, ret_call; simpl.
-      pose proof (lsum_upd _ (cc cfg) _ _ _ (mkCall (c_g cl) (c_msgs cl) (c_refs cl) (CReturned r)) E) as HC.
-      unfold cc at 2 3 in HC. simpl in HC. rewrite Eph in HC. lia. }
+      cc_upd E. unfold cc in HC. simpl in HC. rewrite Eph in HC. lia. }
     destruct (async cfg); [inversion Hst; subst; apply HR|].
     destruct (all_results (s_pws s) (c_refs cl)); [|discriminate]. inversion Hst; subst; apply HR.
   - (* CloseWaitDone *)
@@ -1160,3 +1171,317 @@ Qed.
 Lemma C09_w_variant_proof : forall cfg ls s l s',
   runs cfg ls s -> is_env l = false -> step cfg s l = Some s' -> mu cfg s' < mu cfg s.
 Proof. intros cfg ls s l s' _. apply mu_decreases. Qed.
+
+(* ------------------------------------------------------------------ 6. after Close returned (full) *)
+Definition pw_msgs (pw : pwriter) : list msg := flat_map b_msgs (pw_all pw).
+Definition pw_has (pw : pwriter) (m : msg) : Prop := In m (pw_msgs pw).
+Definition msg_in (pws : list pwriter) (m : msg) : Prop :=
+  exists p pw, nth_error pws p = Some pw /\ pw_has pw m.
+Definition fin_ok (compl : list (list msg * option err)) (pw : pwriter) : Prop :=
+  forall b e, In (b, e) (pw_fin pw) -> In (b_msgs b, e) compl.
+Definition covered (pws : list pwriter) (cl : call) : Prop :=
+  c_ph cl = CEntered \/ rejected cl = true \/ forall m, In m (c_msgs cl) -> msg_in pws m.
+Definition post_inv (s : state) : Prop :=
+  Forall (fin_ok (s_compl s)) (s_pws s) /\ Forall (covered (s_pws s)) (s_calls s).
+
+Lemma fm_app : forall A B (f : A -> list B) l1 l2, flat_map f (l1 ++ l2) = flat_map f l1 ++ flat_map f l2.
+Proof. induction l1; simpl; intros; auto. rewrite IHl1, app_assoc. reflexivity. Qed.
+
+Ltac fm_all := unfold pw_has, pw_msgs, pw_all in *; simpl in *;
+  repeat (progress (repeat match goal with
+  | H : context [flat_map _ (_ ++ _)] |- _ => rewrite fm_app in H
+  | H : context [In _ (_ ++ _)] |- _ => rewrite in_app_iff in H
+  | |- context [flat_map _ (_ ++ _)] => rewrite fm_app
+  | |- context [In _ (_ ++ _)] => rewrite in_app_iff
+  end; simpl in * )).
+
+Definition pws_sub (a b : list pwriter) : Prop :=
+  forall p pw, nth_error a p = Some pw ->
+    exists pw', nth_error b p = Some pw' /\ forall m, pw_has pw m -> pw_has pw' m.
+
+Lemma msg_in_mono : forall a b m, pws_sub a b -> msg_in a m -> msg_in b m.
+Proof.
+  intros a b m H [p [pw [H1 H2]]]. destruct (H _ _ H1) as [pw' [H3 H4]]. exists p, pw'. auto.
+Qed.
+
+Lemma covered_mono : forall a b cl, pws_sub a b -> covered a cl -> covered b cl.
+Proof.
+  intros a b cl H [C|[C|C]]; [left; auto|right; left; auto|right; right].
+  intros m Hm. eapply msg_in_mono; eauto.
+Qed.
+
+Lemma pws_sub_refl : forall a, pws_sub a a.
+Proof. intros a p pw H. exists pw. auto. Qed.
+
+Lemma pws_sub_trans : forall a b c, pws_sub a b -> pws_sub b c -> pws_sub a c.
+Proof.
+  intros a b c H1 H2 p pw H. destruct (H1 _ _ H) as [pw1 [H3 H4]].
+  destruct (H2 _ _ H3) as [pw2 [H5 H6]]. exists pw2. split; auto.
+Qed.
+
+Lemma pws_sub_upd : forall l p x y, nth_error l p = Some x ->
+  (forall m, pw_has x m -> pw_has y m) -> pws_sub l (upd l p y).
+Proof.
+  intros l p x y H Hn q pw Hq. destruct (Nat.eq_dec p q) as [->|N].
+  - exists y. rewrite nth_error_upd_eq by (eapply nth_error_lt; eauto). split; auto.
+    assert (pw = x) by congruence. subst. auto.
+  - exists pw. rewrite nth_error_upd_neq by exact N. auto.
+Qed.
+
+Lemma pws_sub_cons : forall x y l l', (forall m, pw_has x m -> pw_has y m) ->
+  pws_sub l l' -> pws_sub (x :: l) (y :: l').
+Proof.
+  intros x y l l' H1 H2 [|p] pw H; simpl in *.
+  - inversion H; subst. exists y; auto.
+  - apply H2; auto.
+Qed.
+
+Lemma pws_sub_app : forall l r, pws_sub l (l ++ r).
+Proof.
+  intros l r p pw H. exists pw. split; auto. rewrite nth_error_app1; auto. eapply nth_error_lt; eauto.
+Qed.
+
+Lemma pw_add_has : forall cfg pw m pw' k sp, pw_add cfg pw m = (pw', k, sp) -> pw_open pw = true ->
+  (forall x, pw_has pw x -> pw_has pw' x) /\ pw_has pw' m /\ pw_fin pw' = pw_fin pw.
+Proof.
+  intros cfg pw m pw' k sp H Ho.
+  destruct pw as [tp o nb fin snd q cur al aw]. simpl in Ho. subst o.
+  unfold pw_add, new_batch, put in H. simpl in *.
+  destruct cur as [b|]; [destruct (add_fits cfg b m)|]; simpl in H;
+    match type of H with context [if ?c then _ else _] => destruct c end;
+    inversion H; subst; clear H; simpl; (split; [intros x Hx|split; [|reflexivity]]);
+    fm_all; tauto.
+Qed.
+
+Lemma pws_add_has : forall cfg tp m pws i pws' ref sp,
+  pws_add cfg tp m i pws = Some (pws', ref, sp) ->
+  pws_sub pws pws' /\ msg_in pws' m /\
+  (forall compl, Forall (fin_ok compl) pws -> Forall (fin_ok compl) pws').
+Proof.
+  induction pws as [|a pws IH]; simpl; intros i pws' ref sp H; [discriminate|].
+  destruct (pw_open a && tp_eqb (pw_tp a) tp) eqn:Eo.
+  - apply andb_true_iff in Eo. destruct Eo as [Eo _].
+    destruct (pw_add cfg a m) as [[p' k] sp'] eqn:E. inversion H; subst.
+    destruct (pw_add_has _ _ _ _ _ _ E Eo) as [Q1 [Q2 Q3]]. split; [|split].
+    + apply pws_sub_cons; auto. apply pws_sub_refl.
+    + exists 0, p'. simpl. auto.
+    + intros compl HF. inversion HF; subst. constructor; auto.
+      unfold fin_ok in *. rewrite Q3. auto.
+  - destruct (pws_add cfg tp m (S i) pws) as [[[r' ref'] sp']|] eqn:E; [|discriminate].
+    inversion H; subst. destruct (IH _ _ _ _ E) as [Q1 [[p [pw [Q2 Q2']]] Q3]]. split; [|split].
+    + apply pws_sub_cons; auto.
+    + exists (S p), pw. simpl. auto.
+    + intros compl HF. inversion HF; subst. constructor; auto.
+Qed.
+
+Lemma assign_one_has : forall cfg pws wg refs m pws' wg' refs',
+  assign_one cfg (pws, wg, refs) m = (pws', wg', refs') ->
+  pws_sub pws pws' /\ msg_in pws' m /\
+  (forall compl, Forall (fin_ok compl) pws -> Forall (fin_ok compl) pws').
+Proof.
+  intros cfg pws wg refs m pws' wg' refs' H. unfold assign_one in H.
+  destruct (pws_add cfg (tp_of cfg m) m 0 pws) as [[[r' ref'] sp']|] eqn:E.
+  - inversion H; subst. eapply pws_add_has; eauto.
+  - destruct (pw_add cfg (new_pw (tp_of cfg m)) m) as [[p' k] sp'] eqn:E2.
+    inversion H; subst. destruct (pw_add_has _ _ _ _ _ _ E2 eq_refl) as [Q1 [Q2 Q3]].
+    split; [apply pws_sub_app|split].
+    + exists (length pws), p'. rewrite nth_error_app2, Nat.sub_diag by lia. simpl. auto.
+    + intros compl HF. apply Forall_app. split; auto. constructor; [|constructor].
+      unfold fin_ok. rewrite Q3. simpl. intros b e [].
+Qed.
+
+Lemma assign_fold_has : forall cfg ms pws wg refs pws' wg' refs',
+  fold_left (assign_one cfg) ms (pws, wg, refs) = (pws', wg', refs') ->
+  pws_sub pws pws' /\ (forall m, In m ms -> msg_in pws' m) /\
+  (forall compl, Forall (fin_ok compl) pws -> Forall (fin_ok compl) pws').
+Proof.
+  induction ms as [|m ms IH]; intros pws wg refs pws' wg' refs' H; cbn [fold_left] in H.
+  - inversion H; subst. split; [apply pws_sub_refl|split; [intros m []|auto]].
+  - destruct (assign_one cfg (pws, wg, refs) m) as [[pws1 wg1] refs1] eqn:E.
+    destruct (assign_one_has _ _ _ _ _ _ _ _ E) as [Q1 [Q2 Q3]].
+    destruct (IH _ _ _ _ _ _ H) as [R1 [R2 R3]].
+    split; [eapply pws_sub_trans; eauto|split; [|auto]].
+    intros m0 [<-|Hin]; [eapply msg_in_mono; eauto|auto].
+Qed.
+
+Lemma timer_has : forall pw k, pw_wf pw ->
+  (forall x, pw_has pw x -> pw_has (timer_pw pw k) x) /\ pw_fin (timer_pw pw k) = pw_fin pw.
+Proof.
+  intros pw k [_ [W2 _]]. destruct pw as [tp o nb fin snd q cur al aw]. simpl in W2.
+  unfold timer_pw, put. simpl. destruct cur as [b|]; [|split; auto].
+  destruct (W2 _ eq_refl) as [_ [_ Ho]]. subst o.
+  destruct (Nat.eqb (b_k b) k); simpl; (split; [|reflexivity]); intros x Hx; fm_all; tauto.
+Qed.
+
+Lemma close_has : forall pw, pw_wf pw ->
+  (forall x, pw_has pw x -> pw_has (close_pw pw) x) /\ pw_fin (close_pw pw) = pw_fin pw.
+Proof.
+  intros pw [_ [W2 _]]. destruct pw as [tp o nb fin snd q cur al aw]. simpl in W2.
+  unfold close_pw, put. simpl. destruct o; [|split; auto].
+  destruct cur as [b|]; simpl; (split; [|reflexivity]); intros x Hx; fm_all; tauto.
+Qed.
+
+Lemma first_topic_err_kind : forall cfg merr ms i e,
+  first_topic_err cfg merr i ms = Some e -> (exists j, e = ETopic j) \/ (exists j e', e = EMeta j e').
+Proof.
+  induction ms as [|m ms IH]; simpl; intros i e H; [discriminate|].
+  destruct (choose_topic cfg m); [|inversion H; left; eauto].
+  destruct merr as [[j e']|]; [destruct (Nat.eqb i j); [inversion H; right; eauto|]|]; eapply IH; eauto.
+Qed.
+
+Lemma validate_rejected : forall cfg merr ms e g, validate cfg merr ms = Some e ->
+  rejected (mkCall g ms [] (CReturned (RErr e))) = true.
+Proof.
+  intros cfg merr ms e g H. unfold validate in H.
+  destruct (first_too_large cfg 0 ms); [inversion H; reflexivity|].
+  apply first_topic_err_kind in H. destruct H as [[j ->]|[j [e' ->]]]; reflexivity.
+Qed.
+
+Lemma post_inv_upd : forall s p pw pw' wg j lg compl',
+  post_inv s -> nth_error (s_pws s) p = Some pw ->
+  (forall x, pw_has pw x -> pw_has pw' x) -> fin_ok compl' pw' -> incl (s_compl s) compl' ->
+  post_inv (mkSt (s_close s) wg (upd (s_pws s) p pw') (s_calls s) j lg compl' (s_late s)).
+Proof.
+  intros s p pw pw' wg j lg compl' [P1 P2] E Hh Hf Hi. unfold post_inv; simpl. split.
+  - apply Forall_upd; auto. eapply Forall_impl; [|exact P1].
+    intros a Ha b e Hbe. apply Hi. apply Ha. exact Hbe.
+  - eapply Forall_impl; [|exact P2]. intros cl. apply covered_mono. eapply pws_sub_upd; eauto.
+Qed.
+
+Lemma post_inv_step : forall cfg s l s',
+  cl_inv s -> post_inv s -> step cfg s l = Some s' -> post_inv s'.
+Proof.
+  intros cfg s l s' [I1 _] P Hst. destruct l; unfold step in Hst.
+  - (* Call *)
+    destruct P as [P1 P2].
+    assert (HA : forall wg cl, covered (s_pws s) cl -> post_inv (add_call s wg cl)).
+    { intros wg cl Hcl. unfold post_inv, add_call; simpl. split; [auto|].
+      apply Forall_app. split; [exact P2|]. constructor; [exact Hcl|constructor]. }
+    destruct (call_admissible s g msgs); [|discriminate].
+    destruct (closed s);
+      [|destruct msgs; [|destruct (validate cfg merr (m :: msgs)) eqn:Ev]];
+      inversion Hst; subst s'; apply HA.
+    + right; left; reflexivity.
+    + right; right. intros m [].
+    + right; left. eapply validate_rejected; eauto.
+    + left; reflexivity.
+  - (* Assign *)
+    destruct P as [P1 P2].
+    destruct (nth_error (s_calls s) c) as [cl|] eqn:E; [|discriminate].
+    destruct (c_ph cl) eqn:Eph; try discriminate.
+    unfold assign_all in Hst.
+    destruct (fold_left (assign_one cfg) (c_msgs cl) (s_pws s, s_wg s, [])) as [[pws wg] refs] eqn:EA.
+    inversion Hst; subst s'; clear Hst.
+    destruct (assign_fold_has _ _ _ _ _ _ _ _ EA) as [Q1 [Q2 Q3]].
+    unfold post_inv; simpl. split; [auto|]. apply Forall_upd.
+    + eapply Forall_impl; [|exact P2]. intros a. apply covered_mono; auto.
+    + right; right. simpl. exact Q2.
+  - (* Timer *)
+    destruct (nth_error (s_pws s) p) as [pw|] eqn:E; [|discriminate].
+    destruct (existsb (Nat.eqb k) (pw_await pw)) eqn:Ex; [|discriminate].
+    inversion Hst; subst s'; clear Hst. unfold with_pw_done.
+    change (post_inv (mkSt (s_close s) (pred (s_wg s)) (upd (s_pws s) p (timer_pw pw k)) (s_calls s)
+                           (s_journal s) (s_log s) (s_compl s) (s_late s))).
+    destruct (timer_has pw k (Forall_nth _ _ _ _ _ I1 E)) as [T1 T2].
+    eapply post_inv_upd; eauto; [|apply incl_refl].
+    unfold fin_ok. rewrite T2. destruct P as [P1 _]. apply (Forall_nth _ _ _ _ _ P1 E).
+  - (* Get *)
+    destruct (nth_error (s_pws s) p) as [pw|] eqn:E; [|discriminate].
+    destruct (pw_alive pw) eqn:Eal; [|discriminate].
+    destruct (pw_snd pw) eqn:Es; [discriminate|]. destruct (pw_queue pw) as [|b q0] eqn:Eq; [discriminate|].
+    inversion Hst; subst s'; clear Hst. unfold with_pw.
+    pose proof (Forall_nth _ _ _ _ _ (proj1 P) E) as F.
+    eapply post_inv_upd; eauto; [|apply incl_refl].
+    destruct pw as [tp o nb fin snd q cur al aw]; simpl in *; subst. intros x Hx. fm_all. tauto.
+  - (* SenderExit *)
+    destruct (nth_error (s_pws s) p) as [pw|] eqn:E; [|discriminate].
+    destruct (pw_alive pw) eqn:Eal; [|discriminate].
+    destruct (pw_snd pw) eqn:Es; [discriminate|]. destruct (pw_queue pw) as [|b q0] eqn:Eq; [|discriminate].
+    destruct (pw_open pw) eqn:Eo; [discriminate|].
+    inversion Hst; subst s'; clear Hst. unfold with_pw_done.
+    pose proof (Forall_nth _ _ _ _ _ (proj1 P) E) as F.
+    eapply post_inv_upd; eauto; [|apply incl_refl].
+    destruct pw as [tp o nb fin snd q cur al aw]; simpl in *; subst. intros x Hx. fm_all. tauto.
+  - (* Attempt *)
+    destruct (nth_error (s_pws s) p) as [pw|] eqn:E; [|discriminate].
+    destruct (pw_snd pw) as [[b n [| |e]]|] eqn:Es; try discriminate.
+    inversion Hst; subst s'; clear Hst.
+    pose proof (Forall_nth _ _ _ _ _ (proj1 P) E) as F.
+    eapply post_inv_upd; eauto; [|apply incl_refl].
+    destruct pw as [tp o nb fin snd q cur al aw]; simpl in *; subst. intros x Hx. fm_all. tauto.
+  - (* BackoffDone *)
+    destruct (nth_error (s_pws s) p) as [pw|] eqn:E; [|discriminate].
+    destruct (pw_snd pw) as [[b n [| |e]]|] eqn:Es; try discriminate.
+    inversion Hst; subst s'; clear Hst. unfold with_pw.
+    pose proof (Forall_nth _ _ _ _ _ (proj1 P) E) as F.
+    eapply post_inv_upd; eauto; [|apply incl_refl].
+    destruct pw as [tp o nb fin snd q cur al aw]; simpl in *; subst. intros x Hx. fm_all. tauto.
+  - (* Finish *)
+    destruct (nth_error (s_pws s) p) as [pw|] eqn:E; [|discriminate].
+    destruct (pw_snd pw) as [[b n [| |e]]|] eqn:Es; try discriminate.
+    inversion Hst; subst s'; clear Hst.
+    pose proof (Forall_nth _ _ _ _ _ (proj1 P) E) as F.
+    eapply post_inv_upd; eauto.
+    + destruct pw as [tp o nb fin snd q cur al aw]; simpl in *; subst. intros x Hx.
+      unfold pw_has, pw_msgs, pw_all in *. simpl in *. rewrite map_app. fm_all. tauto.
+    + unfold fin_ok in *. simpl. intros b0 e0 Hin. apply in_app_or in Hin. apply in_or_app.
+      destruct Hin as [Hin|[Hin|[]]]; [left; auto|right; left]. inversion Hin; reflexivity.
+    + apply incl_appl, incl_refl.
+  - (* Return *)
+    destruct (nth_error (s_calls s) c) as [cl|] eqn:E; [|discriminate].
+    destruct (c_ph cl) eqn:Eph; try discriminate.
+    assert (HR : forall r, post_inv (ret_call s c cl r)).
+    { intros r. destruct P as [P1 P2]. unfold post_inv, ret_call; simpl. split; [auto|].
+      apply Forall_upd; auto. right; right. simpl.
+      destruct (Forall_nth _ _ _ _ _ P2 E) as [C|[C|C]]; [congruence| |exact C].
+      unfold rejected in C. rewrite Eph in C. discriminate. }
+    destruct (async cfg); [inversion Hst; subst; apply HR|].
+    destruct (all_results (s_pws s) (c_refs cl)); [|discriminate]. inversion Hst; subst; apply HR.
+  - (* CtxDone *)
+    destruct (nth_error (s_calls s) c) as [cl|] eqn:E; [|discriminate].
+    destruct (c_ph cl) eqn:Eph; try discriminate.
+    destruct (async cfg); [discriminate|]. inversion Hst; subst s'.
+    destruct P as [P1 P2]. unfold post_inv, ret_call; simpl. split; [auto|].
+    apply Forall_upd; auto. right; right. simpl.
+    destruct (Forall_nth _ _ _ _ _ P2 E) as [C|[C|C]]; [congruence| |exact C].
+    unfold rejected in C. rewrite Eph in C. discriminate.
+  - (* CloseMark *)
+    destruct P as [P1 P2].
+    destruct (s_close s); try discriminate. inversion Hst; subst s'. unfold post_inv; simpl. split.
+    + apply Forall_forall. intros x Hx. apply in_map_iff in Hx. destruct Hx as [y [<- Hy]].
+      rewrite Forall_forall in I1, P1. unfold fin_ok. rewrite (proj2 (close_has y (I1 y Hy))).
+      apply P1. exact Hy.
+    + eapply Forall_impl; [|exact P2]. intros cl. apply covered_mono.
+      intros p pw Hp. exists (close_pw pw). split; [apply map_nth_error; auto|].
+      apply close_has. apply (Forall_nth _ _ _ _ _ I1 Hp).
+  - (* CloseWaitDone *)
+    destruct P as [P1 P2].
+    destruct (s_close s); try discriminate. destruct (s_wg s); try discriminate.
+    inversion Hst; subst s'. split; auto.
+Qed.
+
+Lemma post_inv_runs : forall cfg ls s, runs cfg ls s -> cl_inv s /\ post_inv s.
+Proof.
+  intros cfg. apply (runs_inv cfg (fun s => cl_inv s /\ post_inv s)).
+  - split; [apply (cl_inv_runs cfg [] init); reflexivity|]. split; simpl; constructor.
+  - intros s l s' [I P] Hst. split; [eapply cl_inv_step; eauto|eapply post_inv_step; eauto].
+Qed.
+
+Lemma C09_w_close_post_proof : stmt_C09_w_close_post.
+Proof.
+  unfold stmt_C09_w_close_post. intros cfg ls s Hr _ HC.
+  destruct (C09_w_close_post_partial_proof _ _ _ Hr HC) as [H1 H2].
+  split; [exact H1|split; [exact H2|]].
+  intros c cl m E Hrej Hin.
+  destruct (post_inv_runs _ _ _ Hr) as [_ [P1 P2]].
+  destruct (Forall_nth _ _ _ _ _ P2 E) as [C|[C|C]].
+  - specialize (H2 _ _ E). unfold returned in H2. rewrite C in H2. discriminate.
+  - congruence.
+  - destruct (C m Hin) as [p [pw [Ep Hh]]].
+    destruct (H1 _ _ Ep) as [Hc [Hq [Hs _]]].
+    unfold pw_has, pw_msgs, pw_all in Hh. rewrite Hc, Hq, Hs in Hh. simpl in Hh.
+    rewrite app_nil_r in Hh. apply in_flat_map in Hh. destruct Hh as [b [Hb Hm]].
+    apply in_map_iff in Hb. destruct Hb as [[b' e] [Hb' Hbe]]. simpl in Hb'. subst b'.
+    exists (b_msgs b), e. split; [|exact Hm].
+    apply (Forall_nth _ _ _ _ _ P1 Ep). exact Hbe.
+Qed.
